@@ -69,6 +69,12 @@ def script(projects, deps):
         lines.append(KIND[p](', '.join(ds)))
     if not projects:
         lines.append('pass')
+    # explicit defaults (one call with every command / file-producing
+    # project, and a second call repeating the first of them)
+    files = [p for p in sorted(projects) if p in ('a', 'b', 'd')]
+    if files:
+        lines.append('default(%s)' % ', '.join(files))
+        lines.append('default(%s)' % files[0])
     return '\n'.join(lines) + '\n'
 
 
